@@ -89,12 +89,14 @@ Theorem C09_qbound_advance : forall ps phys (s : pr) q s' q' off0,
 Proof. exact qbound_advance. Qed.
 
 (** every queue reader reachable from [qr_new] by [advance] and [pop_point] steps holds at most
-    8 * consumed values per queue and 8 * (1 + number of zero-width records) * consumed values in
-    total, where consumed = bytes of the logical stream read since the section's data offset *)
+    8 * consumed values per queue AND in total, whatever the prototype (consumed = bytes of the logical
+    stream read since the section's data offset); the queues of zero-width records are empty.
+    (Before repair 803272f of the crate the total was 8 * (1 + zero-width records) * consumed.) *)
 Theorem C09_queue_bound : forall ps phys off0 q s, qreach ps phys off0 q s ->
   pr_inv ps phys s /\ off0 <= pr_off s /\
   Forall (fun x => len x <= 8 * (pr_off s - off0)) (q_queues q) /\
-  total_values q <= 8 * (1 + zero_count (q_proto q)) * (pr_off s - off0).
+  total_values q <= 8 * (pr_off s - off0) /\
+  zero_bounded 0 (q_proto q) (q_queues q).
 Proof. exact queue_bound. Qed.
 
 (** the states of the raw iterator are such states *)
@@ -103,15 +105,17 @@ Theorem C09_raw_next_reach : forall ps phys off0 ls it s s' it' o,
   qreach ps phys off0 (ri_q it') s'.
 Proof. exact raw_next_qreach. Qed.
 
-(** the factor (1 + zero-width records) is attained: 116 consumed bytes, 3200 queued values *)
-Theorem C09_queue_amplification :
+(** records of zero width hold no values: 116 consumed bytes of a packet for one 1-bit record and three
+    zero-width records leave 800 values in the first queue and none in the others *)
+Theorem C09_zero_width_no_values :
   (exists d, pr_new 1024 (dev_init amp_phys None) = (d, Ok amp_s0)) /\
-  rrun (qr_new 48 amp_proto) amp_s0 = (amp_s1, Ok amp_q0) /\
+  rrun (qr_new 48 10 amp_proto) amp_s0 = (amp_s1, Ok amp_q0) /\
   rrun (qr_advance amp_q0) amp_s1 = (amp_s2, Ok amp_q1) /\
   pr_off amp_s1 = 80 /\ pr_off amp_s2 = 80 + (14 + amp_k + 2) /\
   zero_count (q_proto amp_q1) = 3 /\
-  total_values amp_q0 = 0 /\ total_values amp_q1 = 4 * 8 * amp_k.
-Proof. exact queue_amplification. Qed.
+  total_values amp_q0 = 0 /\ total_values amp_q1 = 8 * amp_k /\
+  map (@length rvalue) (q_queues amp_q1) = [800; 0; 0; 0]%nat.
+Proof. exact zero_width_no_values. Qed.
 
 Print Assumptions C09_fuel_pr_fill_loop.
 Print Assumptions C09_fuel_d_read_exact.
@@ -128,4 +132,4 @@ Print Assumptions C09_count.
 Print Assumptions C09_qbound_advance.
 Print Assumptions C09_queue_bound.
 Print Assumptions C09_raw_next_reach.
-Print Assumptions C09_queue_amplification.
+Print Assumptions C09_zero_width_no_values.
